@@ -1,6 +1,7 @@
 import SameVerif.Lemmas.HeaderFields
 import SameVerif.Lemmas.HeaderAccessors
 import SameVerif.Model.Message
+import SameVerif.Lemmas.HeaderSem
 /-
   C06 — Header parsing accepts exactly the SAME grammar and exposes fields faithfully.
   Property theorems only.
@@ -340,5 +341,110 @@ example : exHeader.issueDaytimeFields = .ok (123, 12, 0) := by rfl
 example : Header.new exHeader.text = .ok exHeader := by rfl
 example : Msg.tryFromString (exText ++ exTrail) = .ok (.som exHeader) := by rfl
 example : Msg.tryFromBytes (exText ++ exTrail) [] [] = .ok (.som exHeader) := by rfl
+
+end SameVerif.C06
+
+namespace SameVerif.C06
+open SameVerif SameVerif.Gen
+
+/-! ## The interpreting accessors: `originator()`, `event()`, `is_national()` -/
+
+section sem
+variable (s : List Byte) (h : Header) (hn : Header.new s = .ok h)
+  (f : Fields) (hp : parseFields s = some f)
+include hn hp
+
+/-- `originator()` classifies exactly the matched originator code and callsign -/
+theorem accessor_originator : h.originator = .ok (originatorOf (natStr f.org) (natStr f.call)) := by
+  simp [Header.originator, accessor_org s h hn f hp, accessor_callsign s h hn f hp]
+
+/-- `event()` decodes exactly the matched event code -/
+theorem accessor_event : h.event = .ok (eventCode (natStr f.evt)) := by
+  simp [Header.event, accessor_evt s h hn f hp]
+
+/-- `is_national()`: the only location is `000000` and the matched event code decodes to a
+    national phenomenon -/
+theorem accessor_national :
+    h.isNational = .ok (decide (f.locs = [[48, 48, 48, 48, 48, 48]]) && (eventCode (natStr f.evt)).1.info.national) := by
+  obtain ⟨hw, _, _, _, _, _⟩ := canonical_of_parse s h hn f hp
+  have hl := locs_national_iff f.locs hw.locs_ne hw.locs
+  simp only [Header.isNational, accessor_locationStr s h hn f hp, accessor_event s h hn f hp, hl]
+  by_cases hg : f.locs = [[48, 48, 48, 48, 48, 48]] <;> simp [hg]
+
+end sem
+
+/-- the originator class is a function of the ORG code and the first three callsign bytes only:
+    the four assigned codes map to their class, `WXR` is Environment Canada exactly when the
+    callsign *begins* `EC/`, every other three-letter code is `Unknown` -/
+theorem originator_class (org call : List Byte) (hlen : org.length = 3) :
+    originatorOf (natStr org) (natStr call) =
+      if org = [80, 69, 80] then .PrimaryEntryPoint
+      else if org = [67, 73, 86] then .CivilAuthority
+      else if org = [69, 65, 83] then .BroadcastStation
+      else if org = [87, 88, 82] then
+        (if call.take 3 = [69, 67, 47] then .EnvironmentCanada else .NationalWeatherService)
+      else .Unknown := by
+  match org, hlen with
+  | [a, b, c], _ =>
+    by_cases h1 : [a, b, c] = [80, 69, 80]
+    · simp only [List.cons.injEq, and_true] at h1; obtain ⟨rfl, rfl, rfl⟩ := h1; rfl
+    by_cases h2 : [a, b, c] = [67, 73, 86]
+    · simp only [List.cons.injEq, and_true] at h2; obtain ⟨rfl, rfl, rfl⟩ := h2; rfl
+    by_cases h3 : [a, b, c] = [69, 65, 83]
+    · simp only [List.cons.injEq, and_true] at h3; obtain ⟨rfl, rfl, rfl⟩ := h3; rfl
+    by_cases h4 : [a, b, c] = [87, 88, 82]
+    · simp only [List.cons.injEq, and_true] at h4; obtain ⟨rfl, rfl, rfl⟩ := h4
+      have hc : startsWithN (natStr call) [69, 67, 47] = decide (call.take 3 = [69, 67, 47]) := by
+        have e : startsWithN (natStr call) [69, 67, 47] = (natStr (call.take 3) == [69, 67, 47]) := by
+          simp [startsWithN, natStr, List.map_take]
+        rw [e]
+        by_cases hh : call.take 3 = [69, 67, 47]
+        · rw [hh]; decide
+        · have : natStr (call.take 3) ≠ [69, 67, 47] := fun e => hh (natStr_inj _ [69, 67, 47] e)
+          rw [beq_eq_false_iff_ne.mpr this]; simp [hh]
+      have hp : originatorParse (natStr [87, 88, 82]) = .NationalWeatherService := by decide
+      unfold originatorOf
+      rw [hp, hc]
+      by_cases hh : call.take 3 = [69, 67, 47] <;> simp [hh]
+    · have n1 : natStr [a, b, c] ≠ [80, 69, 80] := fun e => h1 (natStr_inj _ [80, 69, 80] e)
+      have n2 : natStr [a, b, c] ≠ [67, 73, 86] := fun e => h2 (natStr_inj _ [67, 73, 86] e)
+      have n3 : natStr [a, b, c] ≠ [69, 65, 83] := fun e => h3 (natStr_inj _ [69, 65, 83] e)
+      have n4 : natStr [a, b, c] ≠ [87, 88, 82] := fun e => h4 (natStr_inj _ [87, 88, 82] e)
+      have n0 : natStr [a, b, c] ≠ [] := by simp [natStr]
+      have n5 : natStr [a, b, c] ≠ [69,110,118,105,114,111,110,109,101,110,116,67,97,110,97,100,97] := by
+        simp [natStr]
+      simp only [originatorOf, originatorParse, h1, h2, h3, h4, if_false]
+      simp [n0, n1, n2, n3, n4, n5]
+
+
+/-- **The national flag reflects the text.**  `is_national()` is true exactly when the header's
+    only location is `000000` and its event code is one of EAN, NIC, NAT, NPT, NST. -/
+theorem national_flag (s : List Byte) (h : Header) (hn : Header.new s = .ok h)
+    (f : Fields) (hp : parseFields s = some f) :
+    h.isNational = .ok true ↔ (f.locs = [[48, 48, 48, 48, 48, 48]] ∧ natStr f.evt ∈ nationalCodes) := by
+  rw [accessor_national s h hn f hp, ← national_iff]
+  by_cases hg : f.locs = [[48, 48, 48, 48, 48, 48]] <;> simp [hg]
+
+/-- the interpreting accessors cannot panic either -/
+theorem sem_accessors_total (s : List Byte) (h : Header) (hn : Header.new s = .ok h) :
+    (∃ v, h.originator = .ok v) ∧ (∃ v, h.event = .ok v) ∧ (∃ v, h.isNational = .ok v) := by
+  obtain ⟨f, _, hp, _⟩ := text_canonical s h hn
+  exact ⟨⟨_, accessor_originator s h hn f hp⟩, ⟨_, accessor_event s h hn f hp⟩,
+    ⟨_, accessor_national s h hn f hp⟩⟩
+
+-- the hypotheses are met and the conclusions are not trivial: an Environment Canada header, a
+-- National Weather Service header whose callsign merely *contains* `EC/`, and a national test
+def exEC : List Byte := [90, 67, 90, 67, 45, 87, 88, 82, 45, 83, 86, 82, 45, 48, 49, 50, 51, 52, 53, 43, 48, 48, 51, 48, 45, 49, 50, 51, 49, 50, 48, 48, 45, 69, 67, 47, 71, 67, 47, 67, 65, 45]
+def exKEC : List Byte := [90, 67, 90, 67, 45, 87, 88, 82, 45, 83, 86, 82, 45, 48, 49, 50, 51, 52, 53, 43, 48, 48, 51, 48, 45, 49, 50, 51, 49, 50, 48, 48, 45, 75, 69, 67, 47, 78, 87, 83, 32, 45]
+def exNPT : List Byte := [90, 67, 90, 67, 45, 80, 69, 80, 45, 78, 80, 84, 45, 48, 48, 48, 48, 48, 48, 43, 48, 48, 51, 48, 45, 49, 50, 51, 49, 50, 48, 48, 45, 87, 72, 73, 84, 69, 72, 83, 69, 45]
+def exNPT2 : List Byte := [90, 67, 90, 67, 45, 80, 69, 80, 45, 78, 80, 84, 45, 48, 48, 48, 48, 48, 48, 45, 48, 49, 50, 51, 52, 53, 43, 48, 48, 51, 48, 45, 49, 50, 51, 49, 50, 48, 48, 45, 87, 72, 73, 84, 69, 72, 83, 69, 45]
+example : Header.new exEC = .ok ⟨exEC, 19, 0, 0⟩ := by rfl
+example : (⟨exEC, 19, 0, 0⟩ : Header).originator = .ok .EnvironmentCanada := by rfl
+example : Header.new exKEC = .ok ⟨exKEC, 19, 0, 0⟩ := by rfl
+example : (⟨exKEC, 19, 0, 0⟩ : Header).originator = .ok .NationalWeatherService := by rfl
+example : Header.new exNPT = .ok ⟨exNPT, 19, 0, 0⟩ := by rfl
+example : (⟨exNPT, 19, 0, 0⟩ : Header).isNational = .ok true := by rfl
+example : Header.new exNPT2 = .ok ⟨exNPT2, 26, 0, 0⟩ := by rfl
+example : (⟨exNPT2, 26, 0, 0⟩ : Header).isNational = .ok false := by rfl
 
 end SameVerif.C06
